@@ -12,7 +12,7 @@ mod prng;
 
 use prng::{Digest, Prng};
 use rand_core::{RngCore, SeedableRng};
-use std::sync::atomic::{AtomicU64, Ordering};
+use std::sync::atomic::{AtomicUsize, Ordering};
 use std::sync::{Arc, Barrier};
 
 #[derive(Clone, Debug)]
@@ -83,9 +83,9 @@ fn run_ops<R: RngCore + Clone + Send + 'static>(mut g: R, ops: &[Op]) -> u64 {
 
 /// private scripted clock: reading i is a pure function of (key, i); jittery, increasing
 fn clock(key: u64) -> impl Fn() -> u64 + Send + Sync + Clone {
-    let pos = Arc::new(AtomicU64::new(0));
+    let pos = Arc::new(AtomicUsize::new(0));
     move || {
-        let i = pos.fetch_add(1, Ordering::Relaxed);
+        let i = pos.fetch_add(1, Ordering::Relaxed) as u64;
         1_000_000u64
             .wrapping_add(i.wrapping_mul(977))
             .wrapping_add(prng::h2(key, i) % 509)
